@@ -4,6 +4,7 @@ import (
 	"fmt"
 	"math"
 	"math/big"
+	"strings"
 
 	"github.com/tuneinsight/lattigo/v6/circuits/ckks/dft"
 	"github.com/tuneinsight/lattigo/v6/core/rlwe"
@@ -185,6 +186,10 @@ func runDFT(c *eng.Ctx, d dftCfg) {
 		s = d.Scaling
 	}
 	tol := math.Exp2(dftTolLog2(d.LogN))
+	if preds != "" {
+		// matrices that share a prime carry half its bits as scale (2^22.5): measured 2^-19..2^-9 on a repaired copy
+		tol = math.Exp2(-6)
+	}
 	key := fmt.Sprintf("dft/n%d/s%d/e%v/d%v/f%d/%v/b%d/p%d/%g", d.LogN, d.LogSlots, d.Enc, d.Dec, d.Format, d.BitRev, d.LogBSGS, d.NP, d.Scaling)
 	c.Distinct(key, true)
 
@@ -236,7 +241,7 @@ func runDFT(c *eng.Ctx, d dftCfg) {
 			want[i] *= complex(s, 0)
 		}
 		e := maxAbsDiff(have, want)
-		c.Max("max_dft_err_over_tol_x1000", int64(1000*e/tol))
+		c.Max("max_dft_err_log2_x10"+strings.ReplaceAll(preds, "|", "_"), int64(10*math.Log2(e+1e-300)))
 		c.Check(e <= tol*math.Max(1, s), "C18|dft.Evaluator.CoeffsToSlots|differs-from-coefficient-model"+preds, func() string {
 			return fmt.Sprintf("max error 2^%.1f > 2^%.1f (%+v)", math.Log2(e), math.Log2(tol), d)
 		})
@@ -261,7 +266,7 @@ func runDFT(c *eng.Ctx, d dftCfg) {
 	}
 	have := decode(back, d.LogSlots)
 	e := maxAbsDiff(have, in)
-	c.Max("max_dft_roundtrip_err_over_tol_x1000", int64(1000*e/tol))
+	c.Max("max_dft_roundtrip_err_log2_x10"+strings.ReplaceAll(preds, "|", "_"), int64(10*math.Log2(e+1e-300)))
 	c.Check(e <= tol*math.Max(1, maxAbs(in)), "C18|dft.Evaluator.SlotsToCoeffs-after-CoeffsToSlots|not-identity"+preds, func() string {
 		return fmt.Sprintf("max error 2^%.1f > 2^%.1f (%+v)", math.Log2(e), math.Log2(tol), d)
 	})
